@@ -5,6 +5,36 @@ HERE = os.path.dirname(os.path.dirname(os.path.abspath(__file__)))
 
 # id -> (level text, level note, technique, design_ref)
 CHECKS = {
+ 'C01': ("Lean 4 theorems: for abstract blocks with read/write footprints (any variable/value types) every topological order of a single-writer block set "
+         "reaches the unique fixed point of the dataflow equations (fixed_point_of_topo, unique_fixed_point, schedule_independent); the bridge lemmas "
+         "(denote_wf, topoB_sound, singleWriterB_sound) carry this to the executable RTL model, giving any_order / rerun_noop / dataflow_unique / tick_indep "
+         "for every design, order, ff permutation and state. Tie to the code: random designs run under all five pass groups plus forced linear extensions "
+         "and ff permutations; every signal after every eval_comb and tick is compared with the model, each real schedule is checked by the model's topoB, "
+         "and three direct oracles (schedules agree, re-run is a no-op, values equal an independent dataflow evaluation) run on the real simulator.",
+         "Trusted: Lean kernel + standard axioms; Model/Rtl.lean (bit-vector signals, assignment-list blocks, nets as blocks, if/else presented as mux by the "
+         "harness generator); driver table glue; generator language = Bits signals, constant slices, one level of children, nets. Scheduling passes are not "
+         "modelled as algorithms; their outputs are checked and executed.",
+         "Lean 4 proof (abstract scheduling theory + verified schedule checker) + differential correspondence check", "DESIGN.md §5 C01"),
+ 'C02': ("Lean 4 theorems: the overlap test is exact at bit level (overlap_spec, rngsOverlap_spec), the schedule checker accepts exactly the orders in which "
+         "every writer of a bit precedes every reader of it (topo_iff_writer_before_reader), and Kahn's algorithm with an arbitrary tie-break is duplicate-free, "
+         "edge-respecting and leaves only predecessor-closed (cyclic) leftovers (kahn_sound, kahn_leftover). Tie to the code: model deps vs _dag.all_constraints, "
+         "topoB on every pass's schedule, run-time call order via sys.setprofile, SimpleSchedulePass replayed through the Kahn model, explicit U<U constraints, "
+         "inversions and pure explicit cycles. PARTIAL: method-constraint BFS (_process_methods) and OpenLoopCLPass are not modelled.",
+         "Trusted: as C01; explicit constraints are handled by the harness oracle (python), not by the Lean model; method constraints only exercised behaviourally by C17/C18.",
+         "Lean 4 proof (verified schedule checker, Kahn with arbitrary oracle) + differential correspondence check", "DESIGN.md §5 C02"),
+ 'C07': ("Lean 4 theorems over the double-buffer model: the shadow buffer after the ff phase is the same for every permutation of the update_ff blocks (ff_perm, "
+         "tick_ff_perm, via pairwise commutation), the ff phase leaves all current values untouched (ff_reads_pre_edge), an unassigned register holds, the last "
+         "executed assignment wins (last_wins), the flip changes exactly the register bits together (edge) and shadow = value at every cycle boundary "
+         "(next_eq_cur). Tie to the code: register-heavy designs under five pass groups and forced permutations of schedule_ff with probes between the ff blocks.",
+         "Trusted: as C01; registers are Bits-typed in the generator (struct registers are bit ranges of one signal in the model).",
+         "Lean 4 proof + differential correspondence check", "DESIGN.md §5 C07"),
+ 'C11': ("Lean 4 theorems about the SCC super-block model: a returned state is a fixed point of every block of the group when the watch list covers the "
+         "intra-group variables (stable_is_fixed_point, with watchOKB_sound and the checked hypothesis watchOKB), the loop is total and `none` means no sweep was "
+         "stable (none_means_unstable), a stable state is accepted (fixed_point_accepted), and a false loop evaluates to the value of its acyclic refinement "
+         "(false_loop_eq_acyclic). Tie to the code: cyclic designs under Dynamic and Mamba with the real inner order and real watch list parsed from the generated "
+         "wrapper and fed to the model; fixed-point re-run, acyclic reference, UpblkCyclicError and sweep-count oracles on the real simulator.",
+         "Trusted: as C01; Kosaraju partition not modelled (its result is executed and checked); watch list read from generated source by rtlgen.parse_scc.",
+         "Lean 4 proof + differential correspondence check", "DESIGN.md §5 C11"),
  'C04': ("Lean 4 theorems (Props/C04.lean) prove, for every width n and all operands, that each operator of the Bits model returns the "
          "unsigned result mod 2^n (comparisons 1 bit), that width mismatches and ints that do not fit are errors, that construction/@=/<<= "
          "accept exactly -2^(n-1)..2^n-1, and that every stored value stays in [0,2^n); the model is tied to PythonBits.py on every run by "
